@@ -470,7 +470,7 @@ func valueOf(call ssa.CallInstruction) ssa.Value {
 // c13RefusalsBeforeCallback: the https service learns the fingerprint and the server name only inside the certificate
 // callback, which the vendored readClientHello calls after a few checks on the hello. A hello that one of those checks
 // turns down is reported without digest and server name. The checks that precede the callback today test the offered
-// version and the renegotiation extension directly (and the compression methods through a flag); the rule freezes that
+// version, the renegotiation extension and the compression methods; the rule freezes that
 // set: no early return on the way to the callback may depend on any other field of the ClientHello. Moving a later
 // refusal (fallback SCSV, cipher suites, ...) in front of the callback takes the fingerprint away from exactly the hellos
 // it refuses.
@@ -491,7 +491,7 @@ func c13RefusalsBeforeCallback(c *Ctx) {
 	if !c.Anchor(cb != nil, rule, "the getCertificate call of readClientHello") {
 		return
 	}
-	allowed := map[string]bool{"vers": true, "secureRenegotiation": true}
+	allowed := map[string]bool{"vers": true, "secureRenegotiation": true, "compressionMethods": true}
 	// fields of the parsed hello a value is computed from
 	var fieldsOf func(v ssa.Value, depth int, seen map[ssa.Value]bool, out map[string]bool)
 	fieldsOf = func(v ssa.Value, depth int, seen map[ssa.Value]bool, out map[string]bool) {
@@ -536,7 +536,7 @@ func c13RefusalsBeforeCallback(c *Ctx) {
 			}
 		}
 		sort.Strings(bad)
-		c.Check(len(bad) == 0, rule, fmt.Sprintf("readClientHello refusal[%d] before the callback", i), p.InstrPos(r), "depends only on the offered version / renegotiation extension (or on no hello field directly)",
+		c.Check(len(bad) == 0, rule, fmt.Sprintf("readClientHello refusal[%d] before the callback", i), p.InstrPos(r), "depends only on the offered version, renegotiation extension or compression methods",
 			"this refusal is reached before the certificate callback and depends on the ClientHello field(s) "+strings.Join(bad, ", ")+": the hellos it turns down never reach the callback in which the https service takes the JA3 digest and the server name, so their handshake-failed events carry empty fingerprint fields")
 	}
 	c.Floor(rule, 3, "refusals of readClientHello that precede the callback")
